@@ -26,7 +26,7 @@ RULE = ('Seeded programs that define up to 4 functions with 0-3 parameters and a
         'unchanged by identity, every other library name added, a script-defined function replaces the library entry, nothing assigned inside a '
         'function appears in globals unless set through systemGlobalSet. Non-trivial: >= 1 arity mismatch (missing/surplus/"..." with 0 or >= 2 '
         'collected) and >= 1 local/global name collision. Distinct by source + host configuration.')
-RULE += ' Also: repeated parameter names; a loop that executes a definition, uses it, re-binds the name (assignment / systemGlobalSet / second definition / if-else definitions) and uses it again; a call whose argument re-binds the called name.'
+RULE += ' Also: repeated parameter names; a loop that executes a definition, uses it, re-binds the name (assignment / systemGlobalSet / second definition / if-else definitions) and uses it again; a call whose argument re-binds the called name. Round 5: a comparison function whose only parameter is `...` and which keeps that array; partial applications of library functions that take `...` themselves called without arguments more than once.'
 ASSUMPTIONS = ['arrayLength/arrayGet are never shadowed (the for lowering calls them by name)', 'function names have >= 2 characters']
 
 NAMES = ['xx', 'yy', 'tot', 'aa', 'bb', 'fn0', 'fn1', 'mathMax', 'stringNew']
